@@ -253,7 +253,7 @@ func c10UpgradePath(c *eng.Ctx, cu, ck *ssa.Function) {
 		}
 		p, isP := bo.X.(*ssa.Parameter)
 		one, isC := bo.Y.(*ssa.Const)
-		return isP && p.Name() == "term" && isC && one.Value != nil && one.Value.ExactString() == "1"
+		return isP && eng.VarName(p) == "term" && isC && one.Value != nil && one.Value.ExactString() == "1"
 	}
 	for _, u := range append(append([]keyUse{}, writes...), destroys...) {
 		site := "term operand of the upgrade key = term - 1{" + u.what + "}"
